@@ -28,7 +28,11 @@ AttrForms == {"tok_ok", "rx_ok", "rx_cb_ok", "rx_greedy_allowed", "no_attr", "tw
               "dup_prio", "dup_cb", "dup_cb_named", "unknown_arg", "bad_lit_int", "bad_lit_ident", "prio_notint", "cb_bad",
               "ignore_bad", "ignore_ascii", "empty_attr", "attr_no_parens", "greedy_notbool", "two_positional",
               \* well-formed corner cases: a pattern that matches nothing, callbacks whose body starts with a group
-              "rx_never", "rx_cb_paren_tail", "rx_cb_brace_tail", "rx_cb_bracket_tail", "rx_cb_bracket_only"}
+              "rx_never", "rx_cb_paren_tail", "rx_cb_brace_tail", "rx_cb_bracket_tail", "rx_cb_bracket_only",
+              \* closure bodies that are one parenthesised group (a tuple / the unit value), or that start with a block-like
+              \* expression (match, if, unsafe) and either end with it or go on after it
+              "rx_cb_tuple_only", "rx_cb_unit_parens", "rx_cb_match_only", "rx_cb_match_tail", "rx_cb_if_only", "rx_cb_if_tail",
+              "rx_cb_match_method", "rx_cb_unsafe_only", "rx_cb_neg", "rx_cb_ref_tuple", "rx_cb_closure_call"}
 
 EnumForms == {"plain", "extras", "error_ty", "error_cb", "skip_ok", "skip_group", "utf8_false", "utf8_true", "crate_path", "subpattern_ok",
               \* generic enums: lifetimes and type parameters
@@ -38,6 +42,8 @@ EnumForms == {"plain", "extras", "error_ty", "error_cb", "skip_ok", "skip_group"
               "dup_extras", "dup_error", "dup_utf8", "unknown_logos", "logos_no_parens", "bad_utf8_val", "skip_nullable", "skip_bad_lit",
               "skip_nonutf8", "skip_nonutf8_group", "skip_nullable_prio", "skip_greedy", "skip_undef_sub", "skip_lookstart",
               "sub_dup", "sub_bad_name", "sub_undef_ref", "sub_nonutf8", "source_deprecated", "error_attr_variant", "const_generic", "dup_error_cb",
+              \* an error callback whose body is a tuple / starts with a block-like expression
+              "error_cb_tuple", "error_cb_match_tail",
               \* tokens after a `name "literal"` item
               "skip_lit_tail", "skip_lit_tail_lit",
               \* a subpattern source that is not a regex on its own
@@ -48,9 +54,11 @@ Seconds == {"none", "other_ok", "same_tok", "overlap_same_prio"}
 GoodShape(s)  == s \in {"unit", "field1"}
 GoodAttr(a, e) ==
   \/ a \in {"tok_ok", "rx_ok", "rx_cb_ok", "rx_greedy_allowed", "no_attr", "two_attrs_ok",
-            "rx_never", "rx_cb_paren_tail", "rx_cb_brace_tail", "rx_cb_bracket_tail", "rx_cb_bracket_only"}
+            "rx_never", "rx_cb_paren_tail", "rx_cb_brace_tail", "rx_cb_bracket_tail", "rx_cb_bracket_only",
+            "rx_cb_tuple_only", "rx_cb_unit_parens", "rx_cb_match_only", "rx_cb_match_tail", "rx_cb_if_only", "rx_cb_if_tail",
+            "rx_cb_match_method", "rx_cb_unsafe_only", "rx_cb_neg", "rx_cb_ref_tuple", "rx_cb_closure_call"}
   \/ (a \in {"rx_nonutf8", "tok_nonutf8", "tok_b80_icase", "rx_b80", "tok_b7f80_icase"} /\ e = "utf8_false")
-GoodEnum(e)   == e \in {"plain", "extras", "error_ty", "error_cb", "skip_ok", "skip_group", "utf8_false", "utf8_true", "crate_path", "subpattern_ok",
+GoodEnum(e)   == e \in {"error_cb_tuple", "error_cb_match_tail", "plain", "extras", "error_ty", "error_cb", "skip_ok", "skip_group", "utf8_false", "utf8_true", "crate_path", "subpattern_ok",
                          "gen_lt", "gen_two_lt_attr", "gen_lt_none", "gen_type_ok", "gen_type_lt_order"}
 (* the second variant conflicts only with a first variant that matches "x" at priority 2 *)
 GoodSecond(s, a) == s \in {"none", "other_ok"} \/ a \notin {"tok_ok", "two_attrs_ok"}
